@@ -119,6 +119,9 @@ theorem invB_iff (p : Page) : invB p = true ↔ Inv p := by
   · rintro ⟨h1, h2, h3, h4, h5⟩
     exact ⟨⟨⟨⟨h1, fun b hb => by simpa using h2 b hb⟩, h3⟩, h4⟩, h5⟩
 
+/-- what the heap walk reports for a page whose lists were force-collected: every index below `capacity` that is not on the free list, ascending -/
+def visitList (p : Page) : List Nat := (List.range p.capacity).filter (fun i => !(p.free.contains i))
+
 /-- address of block `i` of a page whose block area starts at `start` -/
 def blockAddr (start bsize i : Nat) : Nat := start + i * bsize
 
